@@ -398,9 +398,30 @@ class C04(Prop):
                         if has_rules:
                             run.forget_inferred_instances()
                         tw = run.twin()
-                        if live:
-                            # another evaluation over the same nodes is suspended right now: what two concurrently
-                            # live iterators deliver is demanded by no property, so this evaluation is history only
+                        same_q_live = [s for n, s in run.slots.items()
+                                       if s.it is not None and s.state == "open" and s.qid == qid]
+                        if live and len(same_q_live) == len(live) and tw is not None:
+                            # Only earlier iterators of THIS query are suspended (abandoned but still referenced, never
+                            # advanced again).  What two live iterators of one query deliver is demanded by no
+                            # property, so the relaxation is narrow: rows that a suspended iterator has itself already
+                            # delivered may be missing from this evaluation, nothing else may differ.
+                            ref = run.full(qid, pool=tw, quiet=True)
+                            if ref.end == "done" and aged.end == "done":
+                                emitted = set()
+                                for s in same_q_live:
+                                    emitted |= {freeze(r) for r in s.rows}
+                                sim.count("probe:judged_with_suspended_iterator_of_same_query")
+                                missing = ref.rowset() - aged.rowset()
+                                extra = aged.rowset() - ref.rowset()
+                                if extra or not missing <= emitted:
+                                    sim.violate("result-set-while-abandoned-iterator-alive", {
+                                        "query": qid, "aged": aged.brief(), "twin": ref.brief(),
+                                        "missing_beyond_rows_the_suspended_iterator_delivered":
+                                            sorted(map(repr, missing - emitted))[:8],
+                                        "extra": sorted(map(repr, extra))[:8]})
+                            sig.append(("probe", "live-same-query", aged.end))
+                        elif live:
+                            # another query's evaluation over shared nodes is suspended right now: not judged
                             sim.count("probe:not_judged_live_iterator")
                             sig.append(("probe", "live"))
                         elif tw is None:
